@@ -44,7 +44,7 @@ def dispatch (line : String) : String :=
     else if stream ∈ ["lex", "lexlim"] then c03 stream fs
     else if stream ∈ ["parse"] then cParse stream fs
     else if stream ∈ ["strdecode", "strser"] then cStr stream fs
-    else if stream ∈ ["linecol"] then cLc stream fs
+    else if stream ∈ ["linecol", "c11.ranges"] then cLc stream fs
     else if stream ∈ ["scalars"] then cScalars stream fs
     else if stream ∈ ["guard", "sort", "fragcycle"] then c21 stream fs
     else if stream ∈ ["unusedvars"] then c22 stream fs
